@@ -1,240 +1,268 @@
-(** TIE "tensorbuild": the regenerated construction pipeline (gen/TensorBuildGen.v, from
-    /repo/src/tensora/tensor.py) against model/TensorBuild.v. *)
+(** TIE "tensorbuild": the final statements -- the regenerated constructors (tensor.py) against
+    [build] of model/TensorBuild.v, validation included, and the regenerated read-back. *)
 From Coq Require Import ZArith List Bool Lia.
 From TV Require Import spec.PyBase spec.PyLib spec.Storage model.TensorBuild model.TensorBuildPy
-  proofs.TensorBuildLemmas proofs.TensorBuildTop proofs.TensorBuildMain proofs.GenTensorBuild_lib proofs.GenTensorBuild_tree proofs.GenTensorBuild_emit.
+  proofs.StorageLemmas proofs.TensorBuildLemmas proofs.TensorBuildTop proofs.TensorBuildMain
+  proofs.GenTensorBuild_lib proofs.GenTensorBuild_tree proofs.GenTensorBuild_emit
+  proofs.GenTensorBuild_build proofs.GenTensorBuild_items proofs.GenTensorBuild_validate proofs.TensorBuildLol.
 From TV Require gen.TensorBuildGen.
 Module G := TensorBuildGen.
 Import ListNotations.
 Open Scope Z_scope.
 
-Definition gm (m : mode) : G.Mode :=
-  match m with MDense => G.Mode_dense | MCompressed => G.Mode_compressed end.
-
-Lemma cm_gm ms : map cm (map gm ms) = ms.
-Proof. induction ms as [|[] ms IH]; cbn; now rewrite ?IH. Qed.
-
-(** the Format object denoted by a format of the hand model *)
-Definition gfmt (f : format) : G.Format :=
-  G.mkFormat (map gm (fmodes f)) (map Z.of_nat (fordering f)).
-
-(** [indices] as handed to taco_structure_to_cffi *)
-Definition indices_of (ls : list level) : list (list (list Z)) :=
-  map (fun l => match l with LDense => [] | LCompressed pos crd => [pos; crd] end) ls.
-
-Lemma indices_of_levels ms : forall ds ss, length ds = length ms -> length ss = length ms ->
-  indices_of (levels_of (combine ms ds) ss) = concs (map gm ms) ss.
+Lemma emit_modes lv : forall nodes, map mode_of_level (fst (emit lv nodes)) = map fst lv.
 Proof.
-  induction ms as [|m ms IH]; intros [|d ds] [|s ss] Hd Hs; try discriminate; [reflexivity|].
-  cbn. rewrite IH by (cbn in *; lia). destruct m; reflexivity.
+  induction lv as [|[m d] lv IH]; intros nodes; [reflexivity|].
+  cbn [emit]. destruct m.
+  - specialize (IH (flat_map (fun nd => map (fun i => select i nd) (zrange d)) nodes)).
+    destruct (emit lv _). cbn in *. now rewrite IH.
+  - specialize (IH (flat_map (fun nd => map (fun k => select k nd) (keys nd)) nodes)).
+    destruct (emit lv _). cbn in *. now rewrite IH.
 Qed.
 
-Lemma zipapp_nil_l {X} (b : list (list X)) : zipapp (repeat [] (length b)) b = b.
-Proof. induction b; cbn; [reflexivity|]. now rewrite IHb. Qed.
-
-Notation arrays := (G.tree_to_indices_and_values Z 0 Z.add Z.eqb).
-
-Lemma init_loop (f : list (list (list Z)) -> G.Mode * Z -> R (list (list (list Z)))) :
-  (forall acc m d, f acc (m, d) = Val (acc ++ [conc m []])) ->
-  forall ms ds acc, length ds = length ms ->
-  rfold_zip_strict f ms ds acc = Val (acc ++ concs ms (repeat [] (length ms))).
+Lemma raw_build_fields fmt dims ldims les :
+  length ldims = length (fmodes fmt) ->
+  let t := raw_build fmt dims ldims les in
+  Storage.dims t = dims /\ ordering t = fordering fmt
+  /\ map cint (levels t) = map G.Mode_c_int (map gm (fmodes fmt)).
 Proof.
-  intros Hf. induction ms as [|m ms IH]; intros [|d ds] acc H; try discriminate; cbn.
-  - now rewrite app_nil_r.
-  - rewrite Hf. cbn. rewrite IH by (cbn in H; lia). rewrite <- app_assoc. reflexivity.
+  intros Hl. unfold raw_build.
+  pose proof (emit_modes (combine (fmodes fmt) ldims) [les]) as Hm.
+  destruct (emit (combine (fmodes fmt) ldims) [les]) as [ls vs]. cbn [fst] in Hm. cbn.
+  repeat split. rewrite combine_map_fst in Hm by lia. rewrite <- Hm.
+  unfold cint, gmode. now rewrite !map_map.
 Qed.
 
-(** tree_to_indices_and_values on the trie of [les] gives the arrays of [emit] *)
-Lemma arrays_ok ms ds les ot fuel :
-  length ds = length ms -> (length ms <= fuel)%nat -> treeinv (length ms) ot les ->
-  arrays fuel ot (map gm ms) ds
-  = Val (indices_of (fst (emit (combine ms ds) [les])), snd (emit (combine ms ds) [les])).
-Proof.
-  intros Hd Hf Hinv. rewrite emit_emit_segs. cbn [fst snd].
-  rewrite indices_of_levels; [|assumption|now rewrite emit_segs_length, combine_length, Hd, Nat.min_id].
-  unfold G.tree_to_indices_and_values. cbv zeta.
-  erewrite init_loop; [| intros acc [] d; reflexivity | now rewrite map_length].
-  cbn [rbind app]. rewrite map_length.
-  destruct ms as [|m mr]; destruct ds as [|dm dr]; try discriminate.
-  - cbn [length Z.of_nat Z.eqb]. destruct ot as [t|]; cbn in Hinv.
-    + destruct Hinv as [_ ->]. reflexivity.
-    + subst les. reflexivity.
-  - replace (Z.of_nat (length (dm :: dr)) =? 0) with false by (symmetry; apply Z.eqb_neq; cbn [length]; lia).
-    assert (Hrep : exists t, rep (S (length mr)) t les /\
-                   match ot with Some t' => t' = t | None => t = PDict [] end).
-    { destruct ot as [t|]; cbn in Hinv.
-      - exists t. split; [apply Hinv|reflexivity].
-      - subst les. exists (PDict []). split; [|reflexivity]. apply rep_S. exists []. split; [reflexivity|apply repd_nil]. }
-    destruct Hrep as (t & Hrep & Ht).
-    pose proof (dfs_ok (map gm mr) (gm m) dr dm fuel [] [] [] (repeat [] (S (length mr))) [] t les) as X.
-    rewrite !map_length in X. cbn [length app] in X.
-    specialize (X ltac:(cbn in *; lia) ltac:(cbn in *; lia) ltac:(now rewrite repeat_length) eq_refl eq_refl Hrep).
-    change (gm m :: map gm mr) with (map gm (m :: mr)) in X. rewrite cm_gm in X.
-    assert (Hz : forall b : list (list (list Z)), length b = S (length mr) -> zipapp (repeat [] (S (length mr))) b = b).
-    { intros b Hb. rewrite <- Hb. apply zipapp_nil_l. }
-    rewrite Hz in X by (rewrite emit_segs_length, combine_length; cbn [length] in *; lia).
-    cbn [length map]. cbn [Nat.add map] in X. change (Z.of_nat 0) with 0 in X.
-    destruct ot as [t'|]; subst; cbn [rbind]; cbn [length] in X; rewrite X; reflexivity.
-Qed.
-
-(** ** from_aos up to the call of taco_structure_to_cffi *)
-Lemma rbind_Val_r {A} (r : R A) : rbind r (fun x => Val x) = r.
-Proof. destruct r; reflexivity. Qed.
-
-Lemma rmap_of_opt {A B} (f : A -> R B) (g : A -> option B) l :
-  (forall x, f x = of_opt (g x)) -> rmap f l = of_opt (map_opt g l).
-Proof.
-  intros H. induction l as [|a l IH]; cbn; [reflexivity|]. rewrite H, IH.
-  destruct (g a); cbn; [|reflexivity]. destruct (map_opt g l); reflexivity.
-Qed.
-
-Lemma rmap_getitem {A} (l : list A) ord :
-  rmap (fun i => r_getitem l i) (map Z.of_nat ord) = of_opt (map_opt (fun i => nth_error l i) ord).
-Proof.
-  induction ord as [|i ord IH]; cbn; [reflexivity|]. rewrite r_getitem_nat, IH.
-  destruct (nth_error l i); cbn; [|reflexivity]. destruct (map_opt _ ord); reflexivity.
-Qed.
-
-Lemma map_opt_pairs ord (es : list entry) :
-  map_opt (fun e : entry => match permute_coord ord (fst e) with Some lc => Some (lc, snd e) | None => None end) es
-  = match map_opt (permute_coord ord) (map fst es) with
-    | Some lcs => Some (combine lcs (map snd es))
-    | None => None
-    end.
-Proof.
-  induction es as [|[c v] es IH]; cbn; [reflexivity|]. rewrite IH.
-  destruct (permute_coord ord c); [|reflexivity]. destruct (map_opt (permute_coord ord) (map fst es)); reflexivity.
-Qed.
-
-Lemma map_opt_Forall {A B} (f : A -> option B) (P : B -> Prop) l r :
-  (forall a b, f a = Some b -> P b) -> map_opt f l = Some r -> Forall P r.
-Proof.
-  intros H. revert r. induction l as [|a l IH]; cbn; intros r E.
-  - inversion E. constructor.
-  - destruct (f a) eqn:Ea; [|discriminate]. destruct (map_opt f l); [|discriminate].
-    inversion E; subst. constructor; eauto.
-Qed.
-
-Definition permute_entry (ord : list nat) (e : entry) : option entry :=
-  match permute_coord ord (fst e) with Some lc => Some (lc, snd e) | None => None end.
-
-Theorem gen_from_aos_raw fmt dims (es : list entry) fuel :
+(** Tensor.from_aos = [build], for every valid format and ALL dimensions / entries: the stored lists
+    on success, an exception exactly when the model reports an error (IndexError of the reordering,
+    ValueError of the validation). *)
+Theorem gen_from_aos_equiv fmt dims (es : list entry) fuel :
   valid_formatb fmt = true -> (length (fmodes fmt) <= fuel)%nat ->
   G.from_aos Z 0 Z.add Z.eqb fuel (map fst es) (map snd es) dims (gfmt fmt)
-  = match level_dims_of (fordering fmt) dims, map_opt (permute_entry (fordering fmt)) es with
-    | Some ldims, Some les =>
-        let t := raw_build fmt dims ldims les in
-        G.taco_structure_to_cffi Z 0 Z.add Z.eqb (indices_of (levels t)) (vals t)
-          (map G.Mode_c_int (map gm (fmodes fmt))) dims (map Z.of_nat (fordering fmt))
-    | _, _ => Exc
-    end.
+  = match build fmt dims es with Ok t => Val (stored t) | Err _ => Exc end.
 Proof.
-  intros Hv Hf. unfold valid_formatb in Hv. apply andb_true_iff in Hv. destruct Hv as [Hlen _].
-  apply Nat.eqb_eq in Hlen.
-  unfold G.from_aos, gfmt. cbn [G.Format_modes G.Format_ordering]. cbv zeta.
-  rewrite rmap_getitem. unfold level_dims_of.
-  destruct (map_opt (fun i => nth_error dims i) (fordering fmt)) as [ldims|] eqn:El; cbn [of_opt rbind]; [|reflexivity].
-  rewrite (rmap_of_opt _ (permute_coord (fordering fmt))) by (intros c; apply rmap_getitem).
-  unfold permute_entry. rewrite map_opt_pairs.
-  destruct (map_opt (permute_coord (fordering fmt)) (map fst es)) as [lcs|] eqn:Ec; cbn [of_opt rbind]; [|reflexivity].
-  assert (Hl : length lcs = length (map snd es)).
-  { apply map_opt_length in Ec. now rewrite Ec, !map_length. }
-  remember (combine lcs (map snd es)) as les eqn:Eles.
-  assert (E1 : lcs = map fst les) by (subst les; now rewrite TensorBuildTop.map_fst_combine).
-  assert (E2 : map snd es = map snd les) by (subst les; now rewrite TensorBuildTop.map_snd_combine).
-  clear Eles.
-  assert (Hd : Forall (fun e : entry => length (fst e) = length (fmodes fmt)) les).
-  { apply Forall_forall. intros e He. rewrite Hlen.
-    assert (In (fst e) lcs) by (rewrite E1; now apply in_map).
-    assert (HF : Forall (fun lc => length lc = length (fordering fmt)) lcs).
-    { eapply map_opt_Forall; [|exact Ec]. intros a b Hab. unfold permute_coord in Hab.
-      now apply map_opt_length in Hab. }
-    rewrite Forall_forall in HF. now apply HF. }
-  rewrite E1, E2.
-  destruct (ctt_ok (length (fmodes fmt)) fuel les Hf Hd) as (ot & Et & Hinv).
-  rewrite Et. cbn [rbind].
-  rewrite (arrays_ok (fmodes fmt) ldims les ot fuel); [|apply map_opt_length in El; lia|assumption|assumption].
-  cbn [rbind]. unfold raw_build.
-  unfold node in *.
-  match goal with |- context [emit ?a ?b] => destruct (emit a b) as [ls vs] end.
-  cbn [fst snd levels vals]. apply rbind_Val_r.
+  intros Hv Hf. rewrite (gen_from_aos_raw fmt dims es fuel Hv Hf). unfold build. rewrite Hv. cbn [negb].
+  destruct (level_dims_of (fordering fmt) dims) as [ldims|] eqn:El; [|reflexivity].
+  match goal with |- context [match ?x with Some _ => _ | None => Err EIndex end] =>
+    change x with (map_opt (permute_entry (fordering fmt)) es) end.
+  destruct (map_opt (permute_entry (fordering fmt)) es) as [les|]; [|reflexivity].
+  cbv zeta.
+  assert (Hl : length ldims = length (fmodes fmt)).
+  { unfold valid_formatb in Hv. apply andb_true_iff in Hv. destruct Hv as [Hv _]. apply Nat.eqb_eq in Hv.
+    unfold level_dims_of in El. apply map_opt_length in El. lia. }
+  destruct (raw_build_fields fmt dims ldims les Hl) as (E1 & E2 & E3).
+  set (t := raw_build fmt dims ldims les) in *.
+  rewrite <- E3, <- E2. rewrite <- E1 at 1.
+  rewrite gen_validate_ok. destruct (validate t); reflexivity.
 Qed.
 
-(** ** against [build] *)
-Lemma build_Ok_raw fmt dims es t :
-  build fmt dims es = Ok t ->
-  exists ldims les, level_dims_of (fordering fmt) dims = Some ldims
-    /\ map_opt (permute_entry (fordering fmt)) es = Some les
-    /\ t = raw_build fmt dims ldims les /\ validate t = true /\ valid_formatb fmt = true.
+Theorem gen_from_dok_equiv fmt dims (d : list entry) fuel :
+  valid_formatb fmt = true -> (length (fmodes fmt) <= fuel)%nat ->
+  G.from_dok Z 0 Z.add Z.eqb fuel d dims (gfmt fmt)
+  = match from_dok fmt dims d with Ok t => Val (stored t) | Err _ => Exc end.
 Proof.
-  unfold build. destruct (valid_formatb fmt) eqn:Hv; cbn [negb]; [|discriminate].
-  destruct (level_dims_of (fordering fmt) dims) as [ldims|]; [|discriminate].
-  match goal with |- context [map_opt ?f es] => change f with (permute_entry (fordering fmt)) end.
-  match goal with |- context [match ?x with Some _ => _ | None => Err EIndex end] => destruct x as [les|] eqn:Eles end; [|intros X; discriminate X].
-  destruct (validate (raw_build fmt dims ldims les)) eqn:Hval; [|intros X; discriminate X].
-  intros E. inversion E; subst. exists ldims, les. repeat split; auto.
+  intros Hv Hf. rewrite (proj1 (main_entry_points fmt dims) d).
+  unfold G.from_dok. now apply gen_from_aos_equiv.
 Qed.
 
-(** whenever the hand model builds [t], the regenerated from_aos hands exactly the arrays of [t]
-    (with the mode ints, the dimensions and the ordering) to taco_structure_to_cffi *)
-Theorem gen_from_aos_of_build fmt dims (es : list entry) fuel t :
-  (length (fmodes fmt) <= fuel)%nat -> build fmt dims es = Ok t ->
-  G.from_aos Z 0 Z.add Z.eqb fuel (map fst es) (map snd es) dims (gfmt fmt)
-  = G.taco_structure_to_cffi Z 0 Z.add Z.eqb (indices_of (levels t)) (vals t)
-      (map G.Mode_c_int (map gm (fmodes fmt))) dims (map Z.of_nat (fordering fmt)).
-Proof.
-  intros Hf Hb. destruct (build_Ok_raw _ _ _ _ Hb) as (ldims & les & E1 & E2 & -> & _ & Hv).
-  rewrite (gen_from_aos_raw fmt dims es fuel Hv Hf), E1, E2. reflexivity.
-Qed.
-
-(** an IndexError of the hand model (dimensions or a coordinate shorter than the ordering needs)
-    is an exception of the regenerated function *)
-Theorem gen_from_aos_index_error fmt dims (es : list entry) fuel :
-  (length (fmodes fmt) <= fuel)%nat -> build fmt dims es = Err EIndex ->
-  G.from_aos Z 0 Z.add Z.eqb fuel (map fst es) (map snd es) dims (gfmt fmt) = Exc.
-Proof.
-  intros Hf Hb. unfold build in Hb. destruct (valid_formatb fmt) eqn:Hv; cbn [negb] in Hb; [|discriminate].
-  rewrite (gen_from_aos_raw fmt dims es fuel Hv Hf).
-  destruct (level_dims_of (fordering fmt) dims) as [ldims|]; [|reflexivity].
-  match type of Hb with context [match ?x with Some _ => _ | None => Err EIndex end] =>
-    destruct x as [les|] eqn:Eles end.
-  - exfalso. match type of Hb with context [if ?c then _ else _] => destruct c end; discriminate.
-  - unfold permute_entry, entry in *. rewrite Eles. reflexivity.
-Qed.
-
-(** from_dok is from_aos on the keys and values *)
-Theorem gen_from_dok_is_from_aos fuel (d : list entry) dims f :
-  G.from_dok Z 0 Z.add Z.eqb fuel d dims f = G.from_aos Z 0 Z.add Z.eqb fuel (map fst d) (map snd d) dims f.
-Proof. reflexivity. Qed.
-
-(** C09_roundtrip and C09_build_wf, restated with the regenerated from_aos: for every valid format,
-    in-range input, the arrays that the regenerated function hands to taco_structure_to_cffi are those
-    of a tensor [t] that is canonical, passes the model of the validation, and reads back as the
-    summed input. *)
-Theorem gen_roundtrip fmt dims es fuel :
+(** C09_roundtrip end to end on the regenerated functions: build with the regenerated from_aos, read
+    back with the regenerated items / to_dok: exactly the summed non-zero entries. *)
+Theorem gen_roundtrip_full fmt dims es fuel :
   valid_formatb fmt = true -> dims_okb fmt dims = true -> all_in_rangeb dims es = true ->
-  (length (fmodes fmt) <= fuel)%nat ->
+  (length (fmodes fmt) < fuel)%nat ->
   exists t,
-    G.from_aos Z 0 Z.add Z.eqb fuel (map fst es) (map snd es) dims (gfmt fmt)
-    = G.taco_structure_to_cffi Z 0 Z.add Z.eqb (indices_of (levels t)) (vals t)
-        (map G.Mode_c_int (map gm (fmodes fmt))) dims (map Z.of_nat (fordering fmt))
-    /\ build fmt dims es = Ok t
+    G.from_aos Z 0 Z.add Z.eqb fuel (map fst es) (map snd es) dims (gfmt fmt) = Val (stored t)
+    /\ G.items Z 0 Z.add Z.eqb fuel (Z.of_nat (length (ordering t))) (map gmode (levels t)) (Storage.dims t)
+         (map Z.of_nat (ordering t)) (indices_of (levels t)) (vals t) = Val (items_spec t)
+    /\ G.to_dok Z 0 Z.add Z.eqb (items_spec t) false = Val (to_dok_spec t)
     /\ (forall c v, In (c, v) (to_dok_spec t) <-> v = sum_at c es /\ v <> 0)
     /\ NoDup (map fst (to_dok_spec t))
-    /\ format_of t = fmt /\ Storage.dims t = dims
-    /\ wf_tensorb true t = true /\ validate t = true.
+    /\ format_of t = fmt /\ Storage.dims t = dims /\ wf_tensorb true t = true.
 Proof.
   intros Hv Hd Hr Hf.
-  destruct (TensorBuildMain.main_roundtrip fmt dims es Hv Hd Hr) as (t & Hb & H1 & H2 & H3 & H4).
-  destruct (TensorBuildMain.main_build_wf fmt dims es Hv Hd Hr) as (t' & Hb' & Hwf & Hval).
+  destruct (main_roundtrip fmt dims es Hv Hd Hr) as (t & Hb & H1 & H2 & H3 & H4).
+  destruct (main_build_wf fmt dims es Hv Hd Hr) as (t' & Hb' & Hwf & Hval).
   rewrite Hb in Hb'. inversion Hb'; subst t'.
-  exists t. split; [now apply gen_from_aos_of_build|]. split; [assumption|].
-  split; [exact H1|]. split; [exact H2|]. split; [exact H3|]. split; [exact H4|]. split; assumption.
+  exists t. split.
+  { rewrite (gen_from_aos_equiv fmt dims es fuel Hv ltac:(lia)), Hb. reflexivity. }
+  split.
+  { apply (gen_items_ok true t fuel Hwf).
+    assert (E : length (levels t) = length (fmodes fmt)) by (rewrite <- H3; cbn; now rewrite map_length).
+    lia. }
+  split; [apply gen_to_dok_ok|]. split; [exact H1|]. split; [exact H2|]. split; [exact H3|]. split; assumption.
 Qed.
 
-(** (proofs/GenTensorBuild_tree.v) coordinates_to_tree builds the trie *)
+(** the statements of the other files under the names listed in tools/props/_tie_tensorbuild.py *)
 Lemma gen_coordinates_to_tree_ok : forall n fuel (les : list entry),
   (n <= fuel)%nat -> Forall (fun e : entry => length (fst e) = n) les ->
   exists ot, G.coordinates_to_tree Z 0 Z.add Z.eqb fuel (map fst les) (map snd les) = Val ot
              /\ treeinv n ot les.
 Proof. exact ctt_ok. Qed.
+
+Lemma gen_arrays_ok : forall ms ds les ot fuel,
+  length ds = length ms -> (length ms <= fuel)%nat -> treeinv (length ms) ot les ->
+  G.tree_to_indices_and_values Z 0 Z.add Z.eqb fuel ot (map gm ms) ds
+  = Val (indices_of (fst (emit (combine ms ds) [les])), snd (emit (combine ms ds) [les])).
+Proof. exact arrays_ok. Qed.
+
+Lemma gen_validate_equiv : forall t : tensor Z,
+  G.taco_structure_to_cffi Z 0 Z.add Z.eqb (indices_of (levels t)) (vals t) (map cint (levels t)) (Storage.dims t)
+    (map Z.of_nat (ordering t))
+  = if validate t then Val (stored t) else Exc.
+Proof. exact gen_validate_ok. Qed.
+
+Lemma gen_items_equiv : forall strict (t : tensor Z) fuel,
+  wf_tensorb strict t = true -> (length (levels t) < fuel)%nat ->
+  G.items Z 0 Z.add Z.eqb fuel (Z.of_nat (length (ordering t))) (map gmode (levels t)) (Storage.dims t)
+    (map Z.of_nat (ordering t)) (indices_of (levels t)) (vals t)
+  = Val (entries 0 t).
+Proof. exact gen_items_ok. Qed.
+
+Lemma gen_to_dok_equiv : forall (its : list entry) ez,
+  G.to_dok Z 0 Z.add Z.eqb its ez = Val (to_dok ez its).
+Proof. exact gen_to_dok_ok. Qed.
+
+(** ** from_aos on arbitrary coordinate / value lists (zip strict), from_soa *)
+Lemma zip_strict_combine {A B} (a : list A) (b : list B) :
+  length a = length b -> zip_strict a b = Some (combine a b).
+Proof.
+  revert b. induction a as [|x a IH]; intros [|y b] H; try discriminate; [reflexivity|].
+  cbn. rewrite IH by (cbn in H; lia). reflexivity.
+Qed.
+
+Lemma zip_strict_mismatch {A B} (a : list A) (b : list B) :
+  length a <> length b -> zip_strict a b = None.
+Proof.
+  revert b. induction a as [|x a IH]; intros [|y b] H; try reflexivity; [cbn in H; congruence|].
+  cbn. rewrite IH by (cbn in H; lia). reflexivity.
+Qed.
+
+Lemma rfold_zip_strict_mismatch {S A B} (f : S -> A * B -> R S) xs : forall ys s,
+  length xs <> length ys ->
+  rfold_zip_strict f xs ys s = rbind (rfold f (combine xs ys) s) (fun _ => Exc).
+Proof.
+  induction xs as [|x xs IH]; intros [|y ys] s H; cbn in *; try congruence; try reflexivity.
+  destruct (f s (x, y)); cbn; try reflexivity. apply IH. lia.
+Qed.
+
+Lemma ctt_mismatch n fuel (lcs : list (list Z)) (vs : list Z) :
+  (n <= fuel)%nat -> Forall (fun c => length c = n) lcs -> length lcs <> length vs ->
+  G.coordinates_to_tree Z 0 Z.add Z.eqb fuel lcs vs = Exc.
+Proof.
+  intros Hf Hall Hne.
+  assert (Hd : Forall (fun e : entry => length (fst e) = n) (combine lcs vs)).
+  { apply Forall_forall. intros [c v] Hin. apply in_combine_l in Hin. rewrite Forall_forall in Hall. now apply Hall. }
+  destruct (ctt_ok n fuel (combine lcs vs) Hf Hd) as (ot & E & _).
+  unfold G.coordinates_to_tree in *. cbv zeta in *.
+  rewrite rfold_zip_strict_combine in E.
+  rewrite rfold_zip_strict_mismatch by assumption. unfold entry in *. rewrite E. reflexivity.
+Qed.
+
+Theorem gen_from_aos_general fmt dims cs vs fuel :
+  valid_formatb fmt = true -> (length (fmodes fmt) <= fuel)%nat ->
+  G.from_aos Z 0 Z.add Z.eqb fuel cs vs dims (gfmt fmt)
+  = match from_aos fmt dims cs vs with Ok t => Val (stored t) | Err _ => Exc end.
+Proof.
+  intros Hv Hf. destruct (Nat.eq_dec (length cs) (length vs)) as [He|Hne].
+  - unfold from_aos. rewrite zip_strict_combine by assumption.
+    rewrite <- (gen_from_aos_equiv fmt dims (combine cs vs) fuel Hv Hf).
+    now rewrite map_fst_combine, map_snd_combine.
+  - unfold from_aos. rewrite zip_strict_mismatch by assumption. rewrite Hv. cbn [negb].
+    transitivity (@Exc (list (list (list Z)) * list Z * list Z * list Z * list Z)).
+    2:{ destruct (level_dims_of _ _); [|reflexivity]. destruct (map_opt _ cs); reflexivity. }
+    unfold G.from_aos, gfmt. cbn [G.Format_modes G.Format_ordering]. cbv zeta.
+    rewrite rmap_getitem.
+    destruct (map_opt (fun i => nth_error dims i) (fordering fmt)); cbn [of_opt rbind]; [|reflexivity].
+    rewrite (rmap_of_opt _ (permute_coord (fordering fmt))) by (intros c; apply rmap_getitem).
+    destruct (map_opt (permute_coord (fordering fmt)) cs) as [lcs|] eqn:Ec; cbn [of_opt rbind]; [|reflexivity].
+    rewrite (ctt_mismatch (length (fordering fmt)) fuel lcs vs); [reflexivity| | |].
+    + unfold valid_formatb in Hv. apply andb_true_iff in Hv. destruct Hv as [Hv _]. apply Nat.eqb_eq in Hv. lia.
+    + eapply map_opt_Forall; [|exact Ec]. intros a b Hab. unfold permute_coord in Hab. now apply map_opt_length in Hab.
+    + apply map_opt_length in Ec. lia.
+Qed.
+
+Lemma py_transpose_strict_ok (cols : list (list Z)) :
+  py_transpose_strict cols = match transpose_strict cols with Some r => Val r | None => Exc end.
+Proof.
+  induction cols as [|c cols IH]; [reflexivity|].
+  destruct cols as [|c2 cols]; [reflexivity|].
+  change (py_transpose_strict (c :: c2 :: cols)) with
+    (rbind (py_transpose_strict (c2 :: cols)) (fun rows =>
+      (fix zip (a : list Z) (b : list (list Z)) : R (list (list Z)) :=
+         match a, b with
+         | [], [] => Val []
+         | x :: a', y :: b' => rbind (zip a' b') (fun t => Val ((x :: y) :: t))
+         | _, _ => Exc
+         end) c rows)).
+  change (transpose_strict (c :: c2 :: cols)) with
+    (match transpose_strict (c2 :: cols) with
+     | None => None
+     | Some rows => match zip_strict c rows with
+                    | Some z => Some (map (fun p : Z * list Z => fst p :: snd p) z)
+                    | None => None end
+     end).
+  rewrite IH. destruct (transpose_strict (c2 :: cols)) as [rows|]; cbn [rbind]; [|reflexivity].
+  clear IH. revert rows. induction c as [|x c IHc]; intros [|y rows]; cbn; try reflexivity.
+  rewrite IHc. destruct (zip_strict c rows); reflexivity.
+Qed.
+
+Theorem gen_from_soa_equiv fmt dims cols vs fuel :
+  valid_formatb fmt = true -> (length (fmodes fmt) <= fuel)%nat ->
+  G.from_soa Z 0 Z.add Z.eqb fuel cols vs dims (gfmt fmt)
+  = match from_soa fmt dims cols vs with Ok t => Val (stored t) | Err _ => Exc end.
+Proof.
+  intros Hv Hf. unfold G.from_soa, from_soa. cbv zeta. rewrite py_transpose_strict_ok.
+  destruct (transpose_strict cols) as [rows|]; cbn [rbind]; [|reflexivity].
+  now apply gen_from_aos_general.
+Qed.
+
+(** ** from_lol *)
+Fixpoint glol (x : lol) : pylol Z :=
+  match x with LNum v => LolNum v | LList l => LolList (map glol l) end.
+
+Fixpoint lol_depth (x : lol) : nat :=
+  match x with
+  | LNum _ => O
+  | LList l => S (fold_right (fun y m => Nat.max (lol_depth y) m) O l)
+  end.
+
+Fixpoint lol_ind' (P : lol -> Prop) (HN : forall v, P (LNum v))
+    (HL : forall l, Forall P l -> P (LList l)) (x : lol) : P x :=
+  match x with
+  | LNum v => HN v
+  | LList l => HL l ((fix go (l : list lol) : Forall P l :=
+                        match l with
+                        | [] => Forall_nil P
+                        | y :: r => Forall_cons y (lol_ind' P HN HL y) (go r)
+                        end) l)
+  end.
+
+Notation lolrec := (G.lol_to_coordinates_and_values__recurse Z 0 Z.add Z.eqb).
+
+Lemma lolrec_ok : forall x fuel cs vs idx, (lol_depth x < fuel)%nat ->
+  lolrec fuel false cs vs (glol x) idx
+  = Val (cs ++ map fst (lol_entries x (rev idx)), vs ++ map snd (lol_entries x (rev idx))).
+Proof.
+  induction x as [v|l IH] using lol_ind'; intros fuel cs vs idx Hf; (destruct fuel; [lia|]);
+    cbn [G.lol_to_coordinates_and_values__recurse glol].
+  - cbn [lol_entries orb]. destruct (v =? 0); cbn; rewrite ?app_nil_r, ?rev_involutive; reflexivity.
+  - rewrite TensorBuildLol.lol_entries_list. unfold py_enumerate.
+    cbn [lol_depth] in Hf. apply Nat.succ_lt_mono in Hf.
+    match goal with |- context [rfold ?f _ _] => set (F := f) end.
+    generalize 0 as i. revert cs vs.
+    induction l as [|y l IHl]; intros cs vs i; cbn [map py_enumerate_from rfold TensorBuildLol.lol_list_entries].
+    + now rewrite !app_nil_r.
+    + inversion IH as [|? ? Hy Hl]; subst. cbn [fold_right] in Hf.
+      unfold F at 1. rewrite (Hy fuel cs vs (idx ++ [i])) by lia. cbn [rbind]. rewrite rev_unit.
+      rewrite IHl by (assumption || lia). rewrite !map_app, !app_assoc. reflexivity.
+Qed.
+
+Theorem gen_from_lol_equiv fmt dims x fuel :
+  valid_formatb fmt = true -> (length (fmodes fmt) <= fuel)%nat -> (lol_depth x < fuel)%nat ->
+  G.from_lol Z 0 Z.add Z.eqb fuel (glol x) dims (gfmt fmt)
+  = match from_lol fmt dims x with Ok t => Val (stored t) | Err _ => Exc end.
+Proof.
+  intros Hv Hf Hx. unfold G.from_lol, G.lol_to_coordinates_and_values, from_lol. cbv zeta.
+  rewrite (lolrec_ok x fuel [] [] [] Hx). cbn [rbind app rev].
+  now apply gen_from_aos_general.
+Qed.
